@@ -27,9 +27,16 @@ for d in dirs:
         r = sh("%s/bin/origamilint -prop %s -tier quick -repo %s -verif %s" % (ROOT, prop, SCR, v))
         out = r.stdout + r.stderr
         lines = [l.strip()[:230] for l in out.splitlines() if ("rule=" in l and "KNOWN-FINDING" not in l and "NOTE" not in l) or "CHECKER-ERROR" in l]
+        exp = "silent"
+        try:
+            exp = json.load(open(os.path.dirname(pd) + "/meta.json")).get("expect", "silent")
+        except Exception:
+            pass
         print("%-22s %s" % (os.path.relpath(os.path.dirname(pd), os.path.dirname(os.path.dirname(d.rstrip("/"))) if "_" in bn else os.path.dirname(d.rstrip("/"))), ("SILENT" if r.returncode == 0 else "ALARM rc=%d" % r.returncode) + at))
         for l in lines[:6]: print("      " + l)
-        if r.returncode: bad += 1
+        if r.returncode and exp == "silent": bad += 1
+        elif r.returncode: print("      (recorded as %s in meta.json)" % exp)
+        elif exp != "silent": print("      NOTE: recorded as %s but silent now: update meta.json" % exp)
         shutil.rmtree(v)
 sh("git -C %s checkout -q -- . && git -C %s clean -fdq && git -C %s checkout -q --detach $(git -C /repo rev-parse HEAD)" % (SCR, SCR, SCR))
 print("alarms:", bad)
